@@ -47,8 +47,12 @@ def run_model_check(check, specs, tier, level, bounds, rule, assumptions=None, e
     pinned = 0
     if validate_model:
         pinned, bad = validate.run_validation()
-        if bad:
-            raise common.HarnessError(f"reference model disagrees with the implementation on {len(bad)} pinned pest-suite samples, e.g. {bad[0]}")
+        # On the unchanged tree model and implementation agree on all pinned samples, so a
+        # disagreement here means the implementation changed behaviour on a pest-derived sample.
+        for b in bad:
+            rep.violation({"kind": "pinned-sample", "family": "pest-suite samples", "mode": "IU", "grammar": b["grammar"], "rule": b["rule"],
+                           "input": b["input"], "start_pos": 0, "expected": show(b["model"]), "got": show(b["impl"])})
+        pinned -= len(bad)
     agg, failures, total_failures, extras = engine.run(check, specs)
     att = attribution.attribute(check.prop, failures, total_failures, rep)
     # regression witnesses run in a forked child so that the parent stays pristine
